@@ -1302,16 +1302,16 @@ pub fn gen_c14(ctx: &Ctx, run: u64) -> ScenarioA {
         knobs.tau_ps = gen_tau(&mut rng);
         let mut n_search = 0;
         let mut min_r = u64::MAX;
-        for _ in 0..rng.range(1, 3) {
-            let (fen, moves) = gen_position(&mut rng, false);
-            let white = side_to_move_is_white(&fen, &moves);
-            script.push(Intent::Position { fen, moves });
+        for _ in 0..rng.range(1, 4) {
             // sometimes the GUI changes the table size right after the previous bestmove (the
             // scheduler decides whether the finished search thread has released the tables yet);
             // whatever the engine does with it must not come out of the next search's clock
-            if n_search > 0 && rng.chance(1, 6) {
+            if n_search > 0 && rng.chance(1, 5) {
                 script.push(Intent::SetOption { name: "Hash".into(), value: rng.pick(&["64", "256", "512", "1024"]).to_string() });
             }
+            let (fen, moves) = gen_position(&mut rng, false);
+            let white = side_to_move_is_white(&fen, &moves);
+            script.push(Intent::Position { fen, moves });
             // keep the worst case (search runs to the hard limit) below ~600 k nodes
             let max_r = (1_200_000u128 * knobs.tau_ps as u128 / 1_000_000_000).max(200) as u64;
             let r = rng.range(200, max_r.max(201));
